@@ -16,7 +16,7 @@ from common.util import Result, err_kind
 from common import nets
 
 ID = 'C15'
-N = {'quick': 420, 'thorough': 9000}
+N = {'quick': 1200, 'thorough': 24000}
 LEAN_MODULES = ['GnpyProofs.Props.C15']
 THEOREMS = [f'Gnpy.Slots.{t}' for t in (
     'slots_roundtrip', 'frequency_roundtrip', 'bitmap_length', 'usable_iff_in_common_band', 'inBands_iff_frequency',
@@ -47,7 +47,9 @@ MODEL_SCOPE = ('modelled (GnpyModel/Slots.lean): frequency_to_n, nvalue_to_frequ
                'construction order, and hands the line systems to the model; the el_id_lists are then compared '
                'exactly), network design (networks whose design fails are counted and skipped). Monitor: a slot is usable '
                'iff its centre frequency 193.1 THz + n*6.25 GHz lies in a band of every amplifier of the OMS (SI band when '
-               'the OMS has no amplifier), evaluated with exact integers from the amplifiers\' own f_min/f_max.')
+               'the OMS has no amplifier), evaluated with exact integers from the amplifiers\' own f_min/f_max. Every generated OMS has a non-empty common '
+               'band (an OMS whose amplifiers share no band can not carry a channel; build_oms_list raises IndexError there: '
+               'reported, out of scope).')
 
 GRID = 6250000000
 ANCHOR = 193100000000000
@@ -126,9 +128,9 @@ def gen_net(rng, tier, widen):
                 prof = [rng.choice(names)] * (spans + 1)
             else:
                 pool = single if rng.random() < 0.6 else multi
-                if pool is single and rng.random() < 0.85:       # keep a common band (C-like or L-like models only)
+                if pool is single:      # keep a non-empty common band: C-like or L-like models only
                     lband = rng.random() < 0.25
-                    pool = [x for x in single if (x == 'L') == lband and not x.startswith('nar')] + \
+                    pool = [x for x in ('C', 'Cm', 'L', 'R') if (x == 'L') == lband] + \
                            [c[0] for c in custom if (c[2] < ANCHOR - 2 * 10 ** 12) == lband]
                 prof = [rng.choice(pool) for _ in range(spans + 1)]      # mixed amplifier models inside one OMS
             lines.append({'from': s, 'to': t, 'amps': prof, 'fused': rng.random() < 0.15})
@@ -452,7 +454,7 @@ def run_net(case, drv):
         if wrong:
             res.fail(f'usable slots differ from the common band: OMS {o.oms_id} ({len(amps)} amplifiers) index '
                      f'{wrong[0]} is {"usable" if cells[wrong[0] - b.n_min] == "1" else "not usable"} '
-                     f'({len(wrong)} slots differ)', cls='c15-offgrid-band-edge' if og else 'unlisted')
+                     f'({len(wrong)} slots differ)', cls='unlisted')
         res.stats['oms_usable_runs_%d' % min(3, len([1 for i, c in enumerate(cells) if c == '1' and (i == 0 or cells[i - 1] != '1')]))] += 1
         res.stats['oms_without_amplifier'] += int(not amps)
     res.stats['oms'] += len(oms_list)
